@@ -15,6 +15,8 @@ import (
 // FaultData is injected for the catalog.
 type FaultInner struct{ X int64 }
 
+func (i FaultInner) Add(a, b int) int { return a + b }
+
 type FaultObj struct {
 	F      int64
 	hidden int64
@@ -36,20 +38,20 @@ func faultApis() map[string]interface{} {
 	var nilP *FaultInner
 	var nilM map[string]int64
 	return map[string]interface{}{
-		"NilP":  nilP,
-		"NilM":  nilM,
-		"FVS":   []int64{1, 2, 3},
-		"Zero0": int64(0),
-		"Num":   int64(7),
-		"Val":   FaultVal{F: 1},
-		"Obj":   &FaultObj{F: 5, hidden: 9},
-		"FM":    map[string]int64{"a": 1},
-		"two":   func(a, b int) int { return a + b },
-		"boom":  func() int64 { panic("injected function panics on purpose") },
-		"Str":   "text",
-		"PLevel": new(FaultLevel),
-		"PVal":   &FaultVal{F: 2},
-		"Other":  FaultOther{G: 1},
+		"NilP":        nilP,
+		"NilM":        nilM,
+		"FVS":         []int64{1, 2, 3},
+		"Zero0":       int64(0),
+		"Num":         int64(7),
+		"Val":         FaultVal{F: 1},
+		"Obj":         &FaultObj{F: 5, hidden: 9},
+		"FM":          map[string]int64{"a": 1},
+		"two":         func(a, b int) int { return a + b },
+		"boom":        func() int64 { panic("injected function panics on purpose") },
+		"Str":         "text",
+		"PLevel":      new(FaultLevel),
+		"PVal":        &FaultVal{F: 2},
+		"Other":       FaultOther{G: 1},
 		"LevelHolder": &struct{ L FaultLevel }{},
 	}
 }
@@ -179,6 +181,29 @@ var constructs = []construct{
 	{"call-argument", func(f faultKind, id int) (string, bool) {
 		e, _, ok := numOrBool(f)
 		return fmt.Sprintf("%s zq = two(%s, 1) en(%d)", f.pre, e, id), ok
+	}},
+	// the fault sits in the ARGUMENT of a call that is a statement of its own (not the right side of an
+	// assignment, which has a handler of its own), outside and inside conc blocks, where an escaping panic
+	// would be raised on a goroutine of its own
+	{"method-call-argument", func(f faultKind, id int) (string, bool) {
+		e, _, ok := numOrBool(f)
+		return fmt.Sprintf("%s Obj.Two(%s, 1) en(%d)", f.pre, e, id), ok
+	}},
+	{"three-level-call-argument", func(f faultKind, id int) (string, bool) {
+		e, _, ok := numOrBool(f)
+		return fmt.Sprintf("%s Obj.In.Add(1, %s) en(%d)", f.pre, e, id), ok
+	}},
+	{"conc-function-call-argument", func(f faultKind, id int) (string, bool) {
+		e, _, ok := numOrBool(f)
+		return fmt.Sprintf("%s conc { two(%s, 1) zr = 2 } en(%d)", f.pre, e, id), ok
+	}},
+	{"conc-method-call-argument", func(f faultKind, id int) (string, bool) {
+		e, _, ok := numOrBool(f)
+		return fmt.Sprintf("%s conc { zr = 2 Obj.Two(1, %s) } en(%d)", f.pre, e, id), ok
+	}},
+	{"conc-three-level-call-argument", func(f faultKind, id int) (string, bool) {
+		e, _, ok := numOrBool(f)
+		return fmt.Sprintf("%s conc { Obj.In.Add(%s, 1) zr = 2 } en(%d)", f.pre, e, id), ok
 	}},
 	{"conc-member", func(f faultKind, id int) (string, bool) {
 		if f.stmt != "" {
@@ -312,7 +337,12 @@ func RunC09(k *fw.Case, randomBody func(r *rand.Rand, id int) (string, string, m
 	// rule set: the faulty rule plus three healthy ones at varied priorities
 	rs := &RuleSet{}
 	sal := []int64{int64(r.Intn(5) - 2), 3, 0, -3}
-	rs.Rules = append(rs.Rules, &Rule{ID: badID, Name: "bad", Sal: sal[0], HasSal: true, Fail: FailCustom, Custom: custom})
+	// one case in three: the faulty rule sets the stop tag before it faults - the fault must surface all the same
+	setStop := k.Index%3 == 1
+	if setStop {
+		k.Count("faulty_rule_sets_stop_tag_first", 1)
+	}
+	rs.Rules = append(rs.Rules, &Rule{ID: badID, Name: "bad", Sal: sal[0], HasSal: true, Fail: FailCustom, Custom: custom, SetStop: setStop})
 	for i := 0; i < 3; i++ {
 		h := &Rule{ID: 10 + i, Name: fmt.Sprintf("h%d", i), Sal: sal[i+1], HasSal: true}
 		if i == 1 {
